@@ -206,6 +206,15 @@ pub fn run(args: &Args, rec: &mut Recorder) {
                     {
                         rec.bump("corrupted.with_THIS_prefix_outside_structure");
                         format!("THIS.zz_bogus_{k}")
+                    } else if e.ctx.site.starts_with("TypedefCharacteristic.axis_descr[]")
+                        && (e.ctx.site.ends_with("axis_pts_ref") || e.ctx.site.ends_with("curve_axis_ref"))
+                        && rng.chance(1, 2)
+                    {
+                        // in a typedef the prefix names a component of the containing structures; a
+                        // component that no structure has (or a typedef that is in no structure, or is
+                        // also used directly) leaves the reference unresolved in every case
+                        rec.bump("corrupted.with_THIS_prefix_in_typedef");
+                        format!("THIS.zz_bogus_{k}")
                     } else {
                         format!("zz_bogus_{k}")
                     };
